@@ -1,8 +1,9 @@
 //! C02 Reported generated positions are the true positions
 
-use proptest::strategy::Strategy;
+use proptest::collection::vec;
+use proptest::prelude::*;
 
-use crate::gen::{tree, GenCfg};
+use crate::gen::{concretize_repls, leaf, normalize, repls_for, tree, GenCfg};
 use crate::observe::{guard, opts, positions, stream};
 use crate::props::common::*;
 use crate::runner::*;
@@ -33,12 +34,31 @@ fn linebreak_edit(spec: &Spec) -> bool {
   })
 }
 
+/// ReplaceSource (optionally two of them) above a CachedSource above a ConcatSource of 2-5 short leaves:
+/// the cached rope has lines that span several pieces, the warm replay hands them out as multi-piece
+/// chunks, and the replacements cut inside them
+fn spanning_strategy() -> BoxedStrategy<TreeCase> {
+  let cfg = GenCfg { max_tokens: 4, ..GenCfg::positional() };
+  (vec(leaf(cfg), 2..=5), 0u8..5u8, repls_for(cfg, 4), proptest::option::weighted(0.4, repls_for(cfg, 3)))
+    .prop_map(move |(children, how, (pool, abs), outer)| {
+      let cached = Spec::Cached(Box::new(Spec::Concat { how, children }));
+      let t = model_text(&cached);
+      let mut s = Spec::Replace { inner: Box::new(cached), repls: concretize_repls(&t, &pool, &abs, false) };
+      if let Some((pool2, abs2)) = outer {
+        let t2 = model_text(&s);
+        s = Spec::Replace { inner: Box::new(s), repls: concretize_repls(&t2, &pool2, &abs2, false) };
+      }
+      TreeCase { spec: normalize(s, cfg) }
+    })
+    .boxed()
+}
+
 impl Prop for C02 {
   type Case = TreeCase;
   const ID: &'static str = "C02";
   fn rule(&self) -> String {
     "ASCII trees from gen::tree(positional) (all source types, consistent maps on SourceMapSource leaves, \
-     replacement pools incl. beyond-end), each streamed on fresh objects with columns x final_source in {t,f}^2; trees with a CachedSource additionally on one \
+     replacement pools incl. beyond-end), (plus a leg of ReplaceSource(s) above a CachedSource above a ConcatSource of 2-5 short leaves), each streamed on fresh objects with columns x final_source in {t,f}^2; trees with a CachedSource additionally on one \
      object three times over (cold, warm, after map()). \
      Non-trivial: a replacement deletes or inserts a line break, or two children of a ConcatSource share an output line; \
      distinct by hash of the case JSON".into()
@@ -52,6 +72,10 @@ impl Prop for C02 {
           1_000_000,
           12_000_000,
         ),
+      },
+      Leg {
+        name: "replacements cutting the multi-piece chunks of a warm CachedSource",
+        source: Cases::Generated(Box::new(spanning_strategy), 200_000, 2_500_000),
       },
       Leg {
         name: "larger ascii trees (depth<=4, <=6 children, <=30 tokens)",
